@@ -60,6 +60,7 @@ type WCase struct {
 	FailEp    int      `json:"failep"`
 	Partial   bool     `json:"partial"`   // the failing call accepts half of its bytes
 	ErrKind   string   `json:"errkind"`   // what the destination's error looks like (errKinds)
+	FullCount bool     `json:"fullcount"` // the failing call takes all its bytes and returns the error with the full count
 	Bulk      int      `json:"bulk"`      // instead of ops: this many one-shot streams of sizes at the output-piece boundaries (see execBulk)
 	Soak      int      `json:"soak"`      // before the ops: this many streams that end in a destination failure, each followed by Reset
 	SoakPat   int      `json:"soakpat"`   // what a failed stream looks like (0..3) ...
@@ -211,7 +212,7 @@ func runWriterOps(c *WCase, ops []Op, startEpoch int, failing bool, emit func(WE
 	newSink := func() *Sink {
 		s := &Sink{}
 		if failing && c.FailAt > 0 && epoch == c.FailEp {
-			s.FailAt, s.Partial, s.ErrKind = c.FailAt, c.Partial, c.ErrKind
+			s.FailAt, s.Partial, s.ErrKind, s.Full = c.FailAt, c.Partial, c.ErrKind, c.FullCount
 		}
 		return s
 	}
